@@ -427,8 +427,22 @@ class C06(NlpCheck):
                 "t/DT/DT_control vs model")
 
     def correspondence(self):
+        self.density_history()
         NlpCheck.correspondence(self)
         self.minmax_stratified()
+
+    def density_history(self):
+        """several density grids with the SAME N and different parameters in one process (first): every grid must get its own nodes"""
+        R = self.R_quick if self.tier == 'quick' else self.R_thorough
+        prof = {'methods': [('ms', 'rk')], 'grids': ['dense_edges'], 'horizon': ['num'], 'obj_kinds': ['at_tf'], 'ncons': (0, 0),
+                'Ns': [4], 'Ms': [1], 'nxs': [1]}
+        params = [(2, 0.1), (20, 0.3), (5, 0.2), (2, 0.1)]
+        for mult, frac in params[:(3 if self.tier == 'quick' else 4)]:
+            desc = G.gen_case(self.rng, prof)
+            desc['method']['grid'] = {'kind': 'dense_edges', 'multiplier': mult, 'edge_frac': frac}
+            self.count("density-history")
+            if not self.handle(desc, R, "density-grids"):
+                return
 
     def minmax_stratified(self):
         """every grid class x {min only, max only, both} x free horizon: the one-sided options are easy to lose"""
@@ -727,7 +741,12 @@ class C09(NlpCheck):
                 for i in clones:
                     b = mb.bs[i]
                     xv = [rnd(self.rng) for _ in range(mb.nx_opti)]
-                    fv = [rnd(self.rng) for _ in range(sum(s_.numel() for s_ in b.free))] if b.free else None
+                    fv = None
+                    if b.free:
+                        fv = []
+                        with B.quiet():
+                            for s_ in b.free:
+                                fv += [Fr(v) for v in ca.DM(mb.opti.debug.value(s_, mb.opti.initial())).full().flatten(order='F').tolist()]
                     out[i] = [float(v) for v in B.eval_phys(b, xv, pcur, fv)['P'][0]]
                 return out
             try:
@@ -1768,7 +1787,9 @@ class C08(SampleCheck):
         n = 30 if self.tier == 'quick' else 400
         for it_ in range(n):
             # the first cases are DAEs under DirectCollocation with several integrator steps per interval
-            desc = self.gen({'methods': [('dc', 'rk')], 'Ms': [2, 3], 'features': {'qstate': 0.3, 'dae': 1.0, 'pc': 0.4, 'vc': 0.3},
+            # (no declared-but-unused variables there: CasADi drops those from opti.x and the nesting check would have to skip the case)
+            desc = self.gen({'methods': [('dc', 'rk')], 'Ms': [2, 3], 'features': {'qstate': 0.0, 'dae': 1.0, 'pc': 0.0, 'pcp': 0.0, 'vc': 0.0, 'p': 0.0, 'v': 0.0},
+                             'horizon': ['num'], 'grids': ['uniform', 'geometric'],
                              'alg_layouts': [[1], [2], [1, 1]]}) if it_ < (4 if self.tier == 'quick' else 40) else self.gen()
             try:
                 b = B.build(desc)
@@ -1802,15 +1823,22 @@ class C08(SampleCheck):
                 tc, xc = b.ocp.sample(X, grid='control')
                 ti, xi = b.ocp.sample(X, grid='integrator')
                 tf_, xf_ = b.ocp.sample(X, grid='integrator', refine=r_)
+            outs_ = [ca.vec(ca.MX(tc)), xc, ca.vec(ca.MX(ti)), xi, ca.vec(ca.MX(tf_)), xf_]
+            nfree = 0
             try:
-                W = Walker(ca.Function('n', [b.opti.x, b.opti.p], [ca.vec(ca.MX(tc)), xc, ca.vec(ca.MX(ti)), xi, ca.vec(ca.MX(tf_)), xf_]))
+                W = Walker(ca.Function('n', [b.opti.x, b.opti.p], outs_))
             except RuntimeError as ex:
-                if 'are free' in str(ex):
-                    continue        # inactive symbol: not part of opti.x / opti.p (CasADi)
-                raise
+                if 'are free' not in str(ex):
+                    raise
+                # a declared symbol that occurs in neither f nor g is not part of opti.x / opti.p (CasADi): give it an input of its own
+                Ff = ca.Function('n', [b.opti.x, b.opti.p], outs_, {'allow_free': True})
+                free_ = Ff.free_mx()
+                nfree = sum(s_.numel() for s_ in free_)
+                W = Walker(ca.Function('n', [b.opti.x, b.opti.p, ca.vertcat(*[ca.vec(s_) for s_ in free_])], outs_))
+                self.count("nesting-with-inactive-symbols")
             xv, pv, fv = En.rand_point(self.rng, b)
             try:
-                o = W([xv, pv])
+                o = W([xv, pv] + ([[rnd_free for rnd_free in [Fr(self.rng.randint(-4, 4), 2) for _ in range(nfree)]]] if nfree else []))
             except (ZeroDivisionError, OverflowError):
                 continue
             nx = sum(desc['states']) + (sum(desc['algs']) if b.algs else 0)
